@@ -1,0 +1,92 @@
+//go:build verif
+
+package csblob
+
+import (
+	"crypto"
+	"io"
+)
+
+// Verification hooks (build tag "verif"): add-only accessors for the unexported code-directory layer.
+
+// VerifHashPages runs hashPages with a single hash function.
+func VerifHashPages(h crypto.Hash, pages io.Reader, singlePage bool) (slots []byte, slotCount uint32, codeLimit int64, err error) {
+	s, n, lim, err := hashPages([]crypto.Hash{h}, pages, singlePage)
+	if len(s) > 0 {
+		slots = s[0]
+	}
+	return slots, n, lim, err
+}
+
+// VerifCodeDirParams are the inputs of newCodeDirectory.
+type VerifCodeDirParams struct {
+	Flags            SignatureFlags
+	SigningIdentity  string
+	TeamIdentifier   string
+	ExecSegmentBase  int64
+	ExecSegmentLimit int64
+	ExecSegmentFlags int64
+	Specials         [][]byte
+	CodeSlots        []byte
+	CodeSlotCount    uint32
+	HashFunc         crypto.Hash
+	CodeLimit        int64
+	SinglePage       bool
+}
+
+// VerifNewCodeDirectory runs newCodeDirectory and returns the marshalled directory and its digest.
+func VerifNewCodeDirectory(p VerifCodeDirParams) (raw, digest []byte, err error) {
+	res, err := newCodeDirectory(codeDirParams{
+		SignatureParams: &SignatureParams{
+			Flags:            p.Flags,
+			SigningIdentity:  p.SigningIdentity,
+			TeamIdentifier:   p.TeamIdentifier,
+			ExecSegmentBase:  p.ExecSegmentBase,
+			ExecSegmentLimit: p.ExecSegmentLimit,
+			ExecSegmentFlags: p.ExecSegmentFlags,
+		},
+		Specials:      p.Specials,
+		CodeSlots:     p.CodeSlots,
+		CodeSlotCount: p.CodeSlotCount,
+		HashFunc:      p.HashFunc,
+		CodeLimit:     p.CodeLimit,
+		SinglePage:    p.SinglePage,
+	})
+	return res.Raw, res.Digest, err
+}
+
+// VerifParseCodeDirectory runs parseCodeDirectory.
+func VerifParseCodeDirectory(blob []byte, itype uint32) (*CodeDirectory, error) {
+	return parseCodeDirectory(blob, itype)
+}
+
+// VerifSuperItem is one entry of a superblob.
+type VerifSuperItem struct {
+	Magic uint32
+	IType uint32
+	Data  []byte
+}
+
+// VerifParseSuper runs parseSuper.
+func VerifParseSuper(blob []byte) (uint32, []VerifSuperItem, error) {
+	magic, items, err := parseSuper(blob)
+	var out []VerifSuperItem
+	for _, i := range items {
+		out = append(out, VerifSuperItem{uint32(i.magic), i.itype, i.data})
+	}
+	return uint32(magic), out, err
+}
+
+// VerifMarshalSuper runs newSuperItem on every payload with a non-zero magic (items with magic 0 are taken as
+// already marshalled data with the given itype) and then marshalSuperBlob.
+func VerifMarshalSuper(magic uint32, items []VerifSuperItem, wrap []bool) []byte {
+	var its []superItem
+	for k, i := range items {
+		if wrap[k] {
+			its = append(its, newSuperItem(csMagic(i.Magic), i.Data))
+		} else {
+			its = append(its, superItem{magic: csMagic(i.Magic), itype: i.IType, data: i.Data})
+		}
+	}
+	return marshalSuperBlob(csMagic(magic), its)
+}
